@@ -17,6 +17,17 @@ pub struct C18;
 
 fn write_script(dir: &Path, name: &str, marker: &str, status: i32) -> PathBuf
 {
+	if status == HASTY_STATUS
+	{
+		// a backend that fails at once, without reading the IR it is sent
+		let path = dir.join(name);
+		let text = format!("#!/bin/sh\necho \"{}\" >> \"{}/ran.txt\"\nexit {}\n", marker, dir.display(), status);
+		std::fs::write(&path, text).expect("script");
+		let mut perm = std::fs::metadata(&path).unwrap().permissions();
+		perm.set_mode(0o755);
+		std::fs::set_permissions(&path, perm).unwrap();
+		return path;
+	}
 	let path = dir.join(name);
 	let text = format!(
 		"#!/bin/sh\necho \"{}\" >> \"{}/ran.txt\"\necho \"$@\" > \"{}/{}.args\"\ncat > \"{}/{}.stdin\"\nexit {}\n",
@@ -34,6 +45,9 @@ fn write_script(dir: &Path, name: &str, marker: &str, status: i32) -> PathBuf
 	std::fs::set_permissions(&path, perm).unwrap();
 	path
 }
+
+/// exit status of the backend that does not read its input
+const HASTY_STATUS: i32 = 9;
 
 struct Invocation
 {
@@ -126,6 +140,9 @@ impl Invocations
 	{
 		// ---- input
 		let input_kind = c.weighted(&[5, 3, 3]);
+		// one case in ten: a big program and a backend that exits (status 9)
+		// before it has read the IR written to its standard input
+		let hasty = input_kind == 0 && c.chance(1, 10);
 		let mut prog = progen::generate(c, progen::Profile::exec());
 		// sometimes the program also prints bytes that are not UTF-8 (they
 		// must come through `penne run` untouched)
@@ -142,7 +159,16 @@ impl Invocations
 			0 =>
 			{
 				expected_exec = interp::Interp::new(&prog).run_main().ok();
-				vec![("prog.pn".into(), print_program(&prog, Layout::plain(), None))]
+				let mut src = print_program(&prog, Layout::plain(), None);
+				if hasty
+				{
+					// more IR than a pipe buffer holds (64 KiB)
+					for k in 0..700
+					{
+						src.push_str(&format!("\npub fn padding_{}(x: i32) -> i32\n{{\n\tvar y: i32 = x + {};\n\treturn: y * 3\n}}\n", k, k));
+					}
+				}
+				vec![("prog.pn".into(), src)]
 			}
 			1 =>
 			{
@@ -250,7 +276,7 @@ impl Invocations
 		// ---- backend selection (flag > env > config > default)
 		let bindir = dir.join("bin");
 		std::fs::create_dir_all(&bindir).map_err(|e| e.to_string())?;
-		let backend_status = if c.chance(1, 4) { 1 + c.draw(5) as i32 } else { 0 };
+		let backend_status = if hasty { HASTY_STATUS } else if c.chance(1, 4) { 1 + c.draw(5) as i32 } else { 0 };
 		let mut env = Vec::new();
 		let mut expected_marker: Option<&str> = None;
 		let mut real_lli = false;
@@ -278,7 +304,7 @@ impl Invocations
 			{
 				expected_marker = Some("env");
 			}
-			else if c.flag()
+			else if hasty || c.flag()
 			{
 				write_script(&bindir, "lli", "default", backend_status);
 				path_prefix = Some(bindir.clone());
@@ -332,6 +358,20 @@ impl Invocations
 				"default"
 			});
 		}
+		// the output directory may hold (longer) files of an earlier compilation
+		if use_out_dir && c.flag()
+		{
+			for (n, _) in &files
+			{
+				let p = dir.join("outdir").join(format!("{}.ll", n));
+				if let Some(parent) = p.parent()
+				{
+					std::fs::create_dir_all(parent).map_err(|e| e.to_string())?;
+				}
+				std::fs::write(&p, "; output of an earlier compilation\n".repeat(6000)).map_err(|e| e.to_string())?;
+			}
+			out.class("outdir:stale-files");
+		}
 		let inv = Invocation {
 			argv: argv.clone(),
 			env: env.clone(),
@@ -364,8 +404,9 @@ impl Invocations
 		let expect_success = match sub
 		{
 			"emit" => lib.ok,
-			// `run` succeeds whenever the backend produced an exit status
-			"run" => lib.ok,
+			// `run` succeeds whenever the backend produced an exit status (the
+			// hasty one exits before penne has handed over the program)
+			"run" => lib.ok && !hasty,
 			_ => lib.ok && backend_status == 0,
 		};
 		let success = ran.status == Some(0);
@@ -402,7 +443,7 @@ impl Invocations
 				}
 				// the backend received the linked IR
 				let got = std::fs::read_to_string(bindir.join(format!("{}.stdin", m))).unwrap_or_default();
-				if Some(&got) != lib.linked_ir.as_ref()
+				if !hasty && Some(&got) != lib.linked_ir.as_ref()
 				{
 					out.fail(format!("{}: backend did not receive the linked IR", sub), detail());
 					return Ok(());
@@ -477,7 +518,7 @@ impl Invocations
 			if let Some(st) = status
 			{
 				let line = format!("Output: {}", st);
-				if !silent && !stdout.contains(&line)
+				if !silent && !hasty && !stdout.contains(&line)
 				{
 					out.fail("run: exit status of the program is not shown", detail());
 					return Ok(());
@@ -711,7 +752,7 @@ impl Check for C18
 	}
 	fn rule(&self) -> String
 	{
-		"the real `penne` binary (built from /repo with features alpha,llvm-sys) is run in a scratch directory on: generated valid programs, generated programs with 1-2 token faults, and correctly split 2-3 file programs (optionally in a sub-directory) x subcommand {run, emit, build, default build} x random subsets of {--silent, --verbose, --color=never|always|auto, --arrows=ascii|unicode, --out-dir}; backends are generated scripts that record argv/stdin and exit with a chosen status, selected by flag, environment variable (PENNE_BACKEND / PENNE_LLI), config file and/or PATH default in random combinations, or the real lli. Oracle: exit 0 iff compilation (per the library on the same files) and, for build, the backend succeeded; exactly the backend dictated by flag > env > config > default ran and received the linked IR on stdin; no backend runs after a failed compilation; with --out-dir every module has its .pn.ll equal to the library's per-module IR (and accepted by llvm-as/opt on a sample); `run` shows `Output: <status>` unless --silent and passes the program's stdout (== reference interpreter) through; a failing compilation shows its first diagnostic's [Exxx] unless --silent, and with --color=never every report equals, line for line, the library's rendering of that diagnostic (multi-byte comments in one third of the invalid inputs); program output, including bytes that are not UTF-8, comes through byte for byte; a source file that is not UTF-8 is never compiled (15 cases); no ESC byte with --color=never; ASCII-only output with --arrows=ascii on ASCII sources. Plus core:/vendor: arguments with the repository examples. Non-trivial: >= 2 options, or several files, or a failing backend; distinct by (argv, env, files).".into()
+		"the real `penne` binary (built from /repo with features alpha,llvm-sys) is run in a scratch directory on: generated valid programs, generated programs with 1-2 token faults, and correctly split 2-3 file programs (optionally in a sub-directory) x subcommand {run, emit, build, default build} x random subsets of {--silent, --verbose, --color=never|always|auto, --arrows=ascii|unicode, --out-dir}; backends are generated scripts that record argv/stdin and exit with a chosen status, selected by flag, environment variable (PENNE_BACKEND / PENNE_LLI), config file and/or PATH default in random combinations, or the real lli. Oracle: exit 0 iff compilation (per the library on the same files) and, for build, the backend succeeded; exactly the backend dictated by flag > env > config > default ran and received the linked IR on stdin; no backend runs after a failed compilation; with --out-dir every module has its .pn.ll equal to the library's per-module IR (and accepted by llvm-as/opt on a sample); `run` shows `Output: <status>` unless --silent and passes the program's stdout (== reference interpreter) through; a failing compilation shows its first diagnostic's [Exxx] unless --silent, and with --color=never every report equals, line for line, the library's rendering of that diagnostic (multi-byte comments in one third of the invalid inputs); program output, including bytes that are not UTF-8, comes through byte for byte; a source file that is not UTF-8 is never compiled (15 cases); the output directory may hold longer files from before (they are replaced, not overwritten in place); a backend that exits before reading a program larger than a pipe buffer makes `build` and `run` fail; no ESC byte with --color=never; ASCII-only output with --arrows=ascii on ASCII sources. Plus core:/vendor: arguments with the repository examples. Non-trivial: >= 2 options, or several files, or a failing backend; distinct by (argv, env, files).".into()
 	}
 	fn assumptions(&self) -> Vec<String>
 	{
